@@ -1,6 +1,6 @@
 (* Extraction of M-DEV. ExtrOcamlBasic only; nat, positive, N stay inductive. *)
 Require Extraction.
 Require Import ExtrOcamlBasic.
-From Atlas Require Import Base.Bytes Dev.DevSession.
+From Atlas Require Import Base.Bytes Dev.DevSession Dev.DevTxModel Dev.DevServer Dev.DevServerPg.
 Extraction Language OCaml.
-Extraction "model.ml" observe run_cmd.
+Extraction "model.ml" observe run_cmd tx_observe run_scenario run_scenario_pg run_twice run_twice_pg fault_stream.
